@@ -123,3 +123,32 @@ Proof.
   - vm_compute in E. inversion E. subst s0. vm_compute in E2. discriminate.
   - vm_compute in E. inversion E. subst s0. vm_compute in E2. discriminate.
 Qed.
+
+(* ---- invariant over ALL iteration histories with non-negative terminal values, every decision node, plain and plus,
+        every number of coalitions nc and every limit >= 1 (table by id; limit clamped or within nc) *)
+Theorem rm_invariant : forall clamp (np nc lim : nat) plus s0 hist s,
+  (1 <= lim)%nat -> (clamp = true \/ (lim <= nc)%nat) ->
+  rg_mk (rg_mkvariant ById clamp) np nc lim plus = RgOk s0 ->
+  Forall (fun tu => rg_nonneg (fst tu)) hist ->
+  rg_run s0 hist = RgOk s ->
+  forall i, (i < rg_nrm s)%nat ->
+    (exists sg, rg_strategy s (rg_node s i) = RgOk sg /\ length sg = rg_nc s /\ rg_nonneg sg /\ qsum sg == 1 /\ rg_used0 s i sg) /\
+    (forall a, (a < rg_nc s)%nat -> tb (rg_node s i) a = true -> nth a (nth i (rg_regret s) []) 0 <= 0) /\
+    (rg_plus s = true -> rg_nonneg (nth i (rg_regret s) [])).
+Proof. exact rg_rm_invariant_full. Qed.
+Print Assumptions rm_invariant.
+
+Example rm_invariant_ex :
+  let hist := [([1; 0; 0], [[3; 5]; [5; 6]; [3; 6]]%N); ([0; 1; 0], [[3; 5]; [5; 6]; [3; 6]]%N)] in
+  Forall (fun tu => rg_nonneg (fst tu)) hist /\
+  exists s0 s, rg_mk (rg_mkvariant ById true) 3 3 2 true = RgOk s0 /\ rg_run s0 hist = RgOk s /\ rg_nrm s = 4%nat /\
+               nth 0 (rg_regret s) [] = [1#6; 1#6; 1#2].
+Proof.
+  cbv zeta. split.
+  - repeat constructor; simpl; lra.
+  - destruct (rg_mk (rg_mkvariant ById true) 3 3 2 true) as [s0| | |] eqn:E; try (vm_compute in E; discriminate).
+    exists s0. vm_compute in E. apply rg_ok_inj in E. subst s0.
+    match goal with |- exists s, _ /\ ?r = RgOk s /\ _ => destruct r as [s| | |] eqn:E2 end;
+      vm_compute in E2; try discriminate.
+    exists s. apply rg_ok_inj in E2. subst s. repeat split; reflexivity.
+Qed.
